@@ -41,6 +41,8 @@ package store
 //@   requires txr.st != nil && txr._tx != nil
 //@   ensures chain_asc: r1 == nil && old(txr.InitialTxID) != old(txr.CurrTxID) && !old(txr.Desc) ==> r0 != nil && r0.header != nil && old(txr.CurrAlh) == r0.header.PrevAlh
 //@   ensures chain_desc: r1 == nil && old(txr.InitialTxID) != old(txr.CurrTxID) && old(txr.Desc) ==> r0 != nil && r0.header != nil && old(txr.CurrAlh) == r0.header.Alh()
+//@   ensures c01b_hdr: r1 == nil ==> r0 != nil && r0.header != nil && (r0.header.Version == 0 || r0.header.Version == 1)
+//@   ensures c01b_keep: r1 == nil ==> txr.st == old(txr.st) && txr._tx == old(txr._tx)
 
 // The trailing accumulated hash of a transaction record is compared with the hash recomputed from the parsed
 // header and the entry digests. (`alh` is the local array the stored hash is read into.)
